@@ -153,6 +153,7 @@ struct Result {
   uint64_t hash = 0;            // full history hash
   uint64_t ihash = 0;           // hash of (class, op) projection of the schedule
   uint64_t preemptions = 0;     // decisions that switched away from an enabled current fiber
+  uint64_t inregion_points = 0, inregion_preemptions = 0;   // "preempt" variant: decision points offered inside unsynchronised code / those that switched threads
   unsigned max_live_fibers = 0;
   size_t peak_heap = 0, final_heap = 0;
   uint64_t sim_ns = 0;
